@@ -517,6 +517,8 @@ def eval_case(ctx, case):
     elif k == "filter":
         eval_filter(ctx, case)
         eval_filter_file(ctx, case)
+    elif k == "large_file":
+        eval_large_file(ctx, case)
     elif k == "doc":
         eval_doc(ctx, case)
     elif k == "cli":
@@ -537,6 +539,49 @@ def eval_cache(ctx, case):
         if a != b:
             ctx.violation("cache:result-changed", "result for a pattern changed after cache eviction", {"kind": "cache", "pats": pats, "names": names}, {"pattern": p})
             break
+
+
+def eval_large_file(ctx, case):
+    """A large inventory with non-ASCII names and titles, read from a file-like object in blocks of several sizes: the filters see every entry."""
+    import io
+    import random as _random
+
+    from myst_parser import inventory as mi
+
+    R = _random.Random(case["seed"])
+    rows, names = [], []
+    for j in range(case["n"]):
+        n = f"pkg{R.getrandbits(24):x}.{R.choice(['é', 'ß', '日本', 'Ω', '😀', 'a'])}{j}"
+        names.append(n)
+        rows.append((n, R.choice(["py:function", "std:label", "c:macro"]), 1, f"p{j}.html#$", R.choice(["-", f"Títle 語 {j}"])))
+    data = ser_v2("Bïg", "1", rows)
+
+    class Short(io.RawIOBase):
+        def __init__(self, b, k):
+            self.b, self.k, self.p = b, k, 0
+
+        def readable(self):
+            return True
+
+        def read(self, n=-1):
+            n = self.k if n is None or n < 0 else min(n, self.k)
+            out = self.b[self.p : self.p + n]
+            self.p += len(out)
+            return out
+
+    for k in case["reads"]:
+        try:
+            inv = mi.load(io.BytesIO(data) if k == 0 else Short(data, k))
+        except Exception as e:  # noqa: BLE001
+            ctx.violation("large-file:load-raises:" + type(e).__name__, f"a {len(data)}-byte inventory with {len(rows)} non-ASCII entries could not be loaded (reads of {k or 'any'} bytes): {e!r}", case)
+            return
+        ctx.count("large_inventory_files_loaded")
+        for pat in case["patterns"]:
+            exp = sorted(n for n in names if ref_match(n, pat))
+            got = sorted(m.name for m in mi.filter_inventories({"big": inv}, targets=pat))
+            if got != exp:
+                ctx.violation("large-file:filter-set", f"targets={pat!r} on the loaded large inventory selects {len(got)} entries, the entries written that match are {len(exp)}", case, {"missing": [n for n in exp if n not in got][:5], "extra": [n for n in got if n not in exp][:5]})
+                return
 
 
 def eval_filter_coordinates(ctx, pat, fnames, finvs, fsph):
@@ -564,6 +609,9 @@ def run_shard(ctx):
     from myst_parser import inventory as mi
 
     rng = ctx.rng
+    case = {"kind": "large_file", "seed": rng.getrandbits(40), "n": 2500 if ctx.tier == "quick" else 9000, "reads": [0, 16384, 4096, 1000, 37][ctx.shard % 5 :][:2] or [0], "patterns": ["*", "pkg1*", "*é*", "*7", "pkg*.日本*"]}
+    eval_case(ctx, case)
+    ctx.case(("large_file", case["seed"]), True)
     pmax, nmax = (4, 3) if ctx.tier == "quick" else (6, 4)
     # 1. exhaustive pairs, partitioned by pattern index
     names = ["".join(t) for nl in range(nmax + 1) for t in itertools.product(ALPHA, repeat=nl)]
